@@ -13,7 +13,8 @@ forces the one-item-per-line layout (`needsMultiline_entry`), an item is spelled
 quotes on a string value; without inline-map items the layout is that of `Props/C01lists` (≥ 3 items or an annotation-shaped
 string → multi-line).  As in `C01lists` the text side is stated for EVERY layout (`Layout` per list).
 
-  * `C01_maps_text_read` (`…_lenient`, `…_lenient_any`)   the strict (lenient) reader accepts every layout and returns `mdocAt`;
+  * `C01_maps_text_read` (`…_lenient_exact`, `…_lenient`, `…_lenient_any`)   the strict (lenient) reader accepts every layout and
+                                      returns `mdocAt`; `…_lenient_exact`: with exactly the warnings `xdocWarns`, for every document;
   * `C01_maps_canonical_is_readable`  the emitter writes `mdocText name (canonML lines)` and the strict reader returns the same
                                       document (nodes positioned at their keys);
   * `C01_maps_fixed_point`            emit → strict read → emit: the same bytes;
@@ -42,9 +43,9 @@ lines, scalars as the emitter spells them) plus, per inline-map item, two — bo
     fixed point, converges in one step).
 NOT a hypothesis of the statements about `parse` / `emit` / the canonicalisers: warnings.  A quoted string under
 `PATTERN REGEX ENUM TYPE NEVER ALWAYS` draws `constructor_misuse`, content unchanged (`Lemmas/MapDocParse`: `VLine.OKW`).  Only the
-EXACT-warnings form of the lenient statement (`C01_maps_text_read_lenient`) asks `MItem.Quiet` (no such item); without it
-`C01_maps_text_read_lenient_any` gives the same document with some warnings, and `Maps.parseValue_mlistToks` (token level) says
-exactly which.
+older form `C01_maps_text_read_lenient` (warnings = `ListDocParse.vdocWarns`, as for lists of scalars) asks `MItem.Quiet` (no such
+item); `C01_maps_text_read_lenient_exact` gives the exact warnings for EVERY document of the class (`Maps.xdocWarns`: per
+inline-map item `Maps.entryWarns` at the position of its key).
 Outside the class, the real code (see the report): an EMPTY value `k::` is not Absent — `K::[a::,b::1]` reads `{a: ","}` silently,
 `K::[a::]` reads `{a: "]"}` + `unclosed_list` (strict: E007); a MULTI-pair `InlineMap{a:1,b:2}` (API-built) is emitted `a::1,b::2`
 on one line and read back as two maps (not a fixed point of `emit`); nested inline maps are refused in strict mode (finding C01N4);
@@ -157,6 +158,41 @@ theorem C01_maps_text_read_lenient_any (env : Env) (name : Str) (ls : List ML)
   rw [C02.parseWithWarnings_eq_parseToks env _ _ _ hlex', hs]
   unfold C02.parseToksWithWarnings
   simp only [h1, bind, Except.bind, pure, Except.pure, Except.map]
+  rfl
+
+/-- the parser with the EXACT warnings, no condition on them: per line the warnings of its inline-map items at the positions of
+their keys (`MValue.vw`), then `parse_section`'s and the duplicate-key one (`xdocWarns`). -/
+theorem parseDocument_mdocX (env : Env) (strict : Bool) (name : Str) (ls : List ML) (hm : mfirstNotMeta ls = true) :
+    ∃ st', Parser.parseDocument.run (Parser.initState env (mdocToks name ls) strict) = .ok (mdocAt name ls, st') ∧
+      st'.warnings = (xdocWarns [] (toXLines 2 ls)).reverse := by
+  have hb := mdocToks_bridge name ls
+  have hfst := toXLines_fst ls 2
+  obtain ⟨st', h1, h2⟩ := parseDocument_vlinesX (flatFrame name (mlinesHeight ls)) name (toXLines 2 ls) ((mlinesToks 2 ls).length + 6)
+    (Parser.initState env (mdocToks name ls) strict) (toXLines_ok ls 2)
+    (by rw [hfst, ← hb]; simp only [mdocToks, List.length_cons, List.length_append, List.length_nil]; omega)
+    ⟨rfl, Or.inr (by show 1 < 5; omega)⟩ (by rw [hfst]; exact vmetaFirstM_false ls hm) (by rw [hfst, ← hb]; rfl)
+  refine ⟨st', ?_, by rw [h2]; simp [Parser.initState]⟩
+  simp only [StateT.run]
+  rw [h1, hfst, vdoc_bridgeM]
+
+/-- **the lenient entry point with the exact receipts and the exact warnings, for EVERY document of the class** (inline-map items
+under constructor names included): the same document, the lexer's identifier notes only (no normalisation receipt), and exactly
+`xdocWarns`. -/
+theorem C01_maps_text_read_lenient_exact (env : Env) (name : Str) (ls : List ML)
+    (hn : isEnvName name = true) (hne : name ≠ "END".toList) (hok : MLOK ls) (hm : mfirstNotMeta ls = true)
+    (hnfc : ∀ l ∈ splitLines (mdocText name ls), env.nfc l = l) :
+    Parser.parseWithWarnings env (mdocText name ls)
+      = .ok (mdocAt name ls, toksReps (mdocToks name ls), xdocWarns [] (toXLines 2 ls)) ∧
+    (toksReps (mdocToks name ls)).filter isNormalization = [] := by
+  have hlex := tokenize_mdoc env false name ls hn hne hok hnfc
+  have hs := stripFrontmatter_mdoc env name ls
+  have hlex' : Lexer.tokenize env (Parser.stripFrontmatter env (mdocText name ls)).1
+      = .ok (mdocToks name ls, toksReps (mdocToks name ls)) := by rw [hs]; exact hlex
+  obtain ⟨st', h1, h2⟩ := parseDocument_mdocX env false name ls hm
+  refine ⟨?_, toksReps_not_norm _⟩
+  rw [C02.parseWithWarnings_eq_parseToks env _ _ _ hlex', hs]
+  unfold C02.parseToksWithWarnings
+  simp only [h1, h2, bind, Except.bind, pure, Except.pure, Except.map, List.reverse_reverse]
   rfl
 
 /-- hypotheses on a document's lines (content only): lexable, and spelled the way the emitter spells them. -/
@@ -389,6 +425,65 @@ example : ∃ text d' l c xs, emit Env.ascii { name := "DOC".toList, sections :=
 
 example : mxLines.map (fun ln => ln.v.canonLayout) = [.multi 2, .multi 2, .inline] := by decide +kernel
 
+/-! ### the remaining theorems applied to the example -/
+
+/-- every list on one line: `K::[zz,a::1,b::"…",…]`. -/
+def mxInline : List ML := mxLines.map fun ln => (ln, .inline)
+theorem mxInline_fst : mxInline.map Prod.fst = mxLines := by decide +kernel
+
+example : canonStrict Env.ascii (mdocText "DOC".toList mxInline) = .ok mxText := by
+  have := (C03_maps_layouts_converge Env.ascii "DOC".toList mxInline (by decide) (by decide)
+    (by intro x hx; exact mxLines_ok.1 x.1 (by rw [← mxInline_fst]; exact List.mem_map.mpr ⟨x, hx, rfl⟩))
+    (by intro x hx; exact mxLines_ok.2 x.1 (by rw [← mxInline_fst]; exact List.mem_map.mpr ⟨x, hx, rfl⟩))
+    (by decide) (fun _ _ => rfl)).1
+  rw [this, mxInline_fst]; rfl
+
+/-- the lenient reader on the example (it holds `PATTERN::"abc"` and `ENUM::"a b"`, which draw warnings): same document. -/
+example : ∃ ws, Parser.parseWithWarnings Env.ascii mxText
+    = .ok (mdocAt "DOC".toList (canonML mxLines), toksReps (mdocToks "DOC".toList (canonML mxLines)), ws) :=
+  C01_maps_text_read_lenient_any Env.ascii "DOC".toList (canonML mxLines) (by decide) (by decide)
+    (canonML_ok mxLines mxLines_ok.1) (by decide) (fun _ _ => rfl)
+
+/-- … and with the exact warnings, on the example itself: one `constructor_misuse` per quoted string under a constructor name,
+at the position of its key (lines 14 and 15 of the canonical text, column 3). -/
+example : Parser.parseWithWarnings Env.ascii mxText
+    = .ok (mdocAt "DOC".toList (canonML mxLines), toksReps (mdocToks "DOC".toList (canonML mxLines)),
+        [.constructorMisuse "PATTERN".toList "abc".toList 14 3, .constructorMisuse "ENUM".toList "a b".toList 15 3]) := by
+  have h := (C01_maps_text_read_lenient_exact Env.ascii "DOC".toList (canonML mxLines) (by decide) (by decide)
+    (canonML_ok mxLines mxLines_ok.1) (by decide) (fun _ _ => rfl)).1
+  have e : xdocWarns [] (toXLines 2 (canonML mxLines))
+      = [.constructorMisuse "PATTERN".toList "abc".toList 14 3, .constructorMisuse "ENUM".toList "a b".toList 15 3] := by
+    decide +kernel
+  rw [← e]; exact h
+
+/-- … and with the exact warnings on a document whose items draw none. -/
+def mqLines : List MLine :=
+  [ ⟨"K".toList, .list [.entry "a".toList (.int 1), .scalar (.bare "zz".toList), .entry "b".toList (.qstr "x , y".toList)]⟩,
+    ⟨"K".toList, .list [.entry "w".toList (.bare "word".toList)]⟩ ]
+theorem mqLines_ok : MLinesOK mqLines := by
+  refine ⟨?_, ?_⟩ <;> decide +kernel
+example : Parser.parseWithWarnings Env.ascii (mdocText "D".toList (canonML mqLines))
+    = .ok (mdocAt "D".toList (canonML mqLines), toksReps (mdocToks "D".toList (canonML mqLines)),
+        Octave.ListDocParse.vdocWarns [] (toVLinesM 2 (canonML mqLines))) :=
+  (C01_maps_text_read_lenient Env.ascii "D".toList (canonML mqLines) (by decide) (by decide)
+    (canonML_ok mqLines mqLines_ok.1) (by decide +kernel) (by decide) (fun _ _ => rfl)).1
+
+/-- token level, exact warnings: `[PATTERN::abc]` at ANY positions is read as `[{PATTERN: "abc"}]` + one `pattern_autoquote`. -/
+example (st : Parser.PState) (lb kt a rb n : Token) (k : List Token) (l c : Nat)
+    (hlb : lb.type = .listStart) (hkt : kt.type = .identifier) (hkv : kt.value = .str "PATTERN".toList) (ha : a.type = .assign)
+    (hrb : rb.type = .listEnd)
+    (hr : st.rest = [lb, kt, a, (FlatParse.Scalar.word "abc".toList).tok l c, rb] ++ n :: k)
+    (hd : st.depth + 1 < 100) (hq : st.threshold = 0 ∨ st.depth + 1 < st.threshold) :
+    Parser.parseValue 7 st = .ok (.list [.imap [("PATTERN".toList, .str "abc".toList)]],
+      { st with rest := n :: k, prev := some rb, pos := st.pos + 5,
+                warnings := [.patternAutoquote "PATTERN".toList "abc".toList kt.line kt.col] ++ st.warnings }) := by
+  have hh : MHead [PItem.entry kt a "PATTERN".toList (.word "abc".toList) l c]
+      ([] ++ ((PItem.entry kt a "PATTERN".toList (.word "abc".toList) l c).toks ++ ([] ++ [rb]))) :=
+    MHead.last [] _ [] rb (fun _ h => by cases h) (fun _ h => by cases h) hrb ⟨hkt, hkv, ha⟩
+  have := parseValue_mlistToks (MListToks.items lb _ _ hlb hh) st n k 7 hr (by simp) hd hq
+  rw [this]
+  rfl
+
 /-! ### the whole model evaluated on the same document (independent of the theorems) -/
 
 example : (match emit Env.ascii { name := "DOC".toList, sections := mnodesAt 40 (canonML mxLines) } with
@@ -461,6 +556,16 @@ theorem C15_maps_emit_injective (env : Env) (n₁ n₂ : Str) (l₁ l₂ : List 
   have := mnodesAt_inj _ _ _ _ hd.2.2.2.1
   simp only [canonML, List.map_map, Function.comp_def] at this
   exact ⟨hd.1.symm, this.symm⟩
+
+
+/-- injectivity applied: whatever positions two ASTs of the example carry, equal text means equal content. -/
+example (ns : List Node) (l₂ : List MLine) (hno : MNodesOf l₂ ns) (hl₂ : MLinesOK l₂) (hm₂ : mfirstKeyNotMeta l₂ = true)
+    (h : emit Env.ascii { name := "DOC".toList, sections := mnodesAt 7 (canonML mxLines) } = emit Env.ascii { name := "DOC".toList, sections := ns }) :
+    mxLines.map (fun ln => (ln.key, ln.v.value)) = l₂.map (fun ln => (ln.key, ln.v.value)) := by
+  have hno₁ := mnodesOf_mnodesAt (canonML mxLines) 7
+  rw [canonML_fst] at hno₁
+  exact (C15_maps_emit_injective Env.ascii "DOC".toList "DOC".toList mxLines l₂ _ ns hno₁ hno (by decide) (by decide) mxLines_ok
+    (by decide) (fun _ _ => rfl) (by decide) (by decide) hl₂ hm₂ (fun _ _ => rfl) h).2
 
 
 end Octave.C01
